@@ -279,6 +279,19 @@ example : (∀ op ∈ [Op.set (some hE) pRoot [ck v1 hE pX .absent .absent], Op.
   simp only [List.mem_cons, List.not_mem_nil, or_false] at h
   rcases h with rfl | rfl <;> simp [Hostful, hE]
 
+/-- Regression witness (seeded defect C16-2): `e.c` sets the domain cookie `a=1; Domain=e.c;
+Path=/x` and then the otherwise identical `a=1; Path=/x` without Domain. RFC 6265 §5.3 replaces
+the cookie by a host-only one; the model of the unchanged code agrees — the host-only mark is
+recorded whether or not the (equal) Morsel is stored again — and `s.e.c` gets nothing. -/
+theorem identical_reset_becomes_host_only :
+    sent false 0 [.set (some hE) pRoot [ck v1 hE pX .absent .absent], .set (some hE) pRoot [ck v1 [] pX .absent .absent]]
+        hS pX false = [] ∧
+    refSent false 0 [.set (some hE) pRoot [ck v1 hE pX .absent .absent], .set (some hE) pRoot [ck v1 [] pX .absent .absent]]
+        hS pX false = [] ∧
+    sent false 0 [.set (some hE) pRoot [ck v1 hE pX .absent .absent], .set (some hE) pRoot [ck v1 [] pX .absent .absent]]
+        hE pX false = [(nA, v1)] := by
+  decide +kernel
+
 /-! ## counterexamples: where the unchanged code leaves RFC 6265 (each is a reported finding) -/
 
 /-- **F10** `C16/host-only-lost/same-name-other-path-expired`: `e.c` sets `a=1; Path=/x;
